@@ -458,7 +458,11 @@ pub fn generate(rng: &mut Rng, opts: &GenOpts) -> OsuFile {
     let t0: f64 = match p {
         Profile::Gaps if rng.chance(0.3) => -(rng.range(1, 5000) as f64),
         Profile::Limits => *rng.pick(&[0.0, -1000.0, 1e6, 3.3554432e7, 1.0e9, 2.0e9, -2.0e9]),
-        Profile::Late => *rng.pick(&[16_777_216.0, 16_777_300.0, 33_554_432.0, 3.0e7, 5.0e7, 8.0e7, 67_108_864.0, 2.0e7]),
+        Profile::Late => *rng.pick(&[
+            16_777_216.0, 16_777_300.0, 33_554_432.0, 3.0e7, 5.0e7, 8.0e7, 67_108_864.0, 2.0e7,
+            // just below a power of two so that objects (and spinners) cross the boundary where the f32 ulp doubles
+            16_777_215.0, 16_776_900.0, 16_775_000.0, 33_554_000.0, 33_553_431.0, 67_108_000.0, 8_388_000.0,
+        ]),
         Profile::Ties if rng.chance(0.3) => 0.0,
         _ => rng.range(0, 3000) as f64,
     };
